@@ -11,3 +11,4 @@ import Walrus.Props.C14
 import Walrus.Props.C15
 import Walrus.Props.C16
 import Walrus.Props.C17
+import Walrus.Props.C19
